@@ -1,0 +1,52 @@
+//go:build verif
+
+// Contracts for the deductive verifier in /verif (govc). Comment-only file,
+// compiled only with -tags verif.
+
+package query
+
+// ---------------------------------------------------------------------------
+// C26: decoding arbitrary bytes returns a value or an error: no panic, no
+// allocation or loop bound taken unchecked from the input.
+// ---------------------------------------------------------------------------
+
+// b2s reinterprets the bytes as a string (unsafe): assumed, not verified.
+//@ func query.b2s
+//@   trusted
+//@   ensures len(result) == len(b)
+//@   assigns nothing
+
+//@ func query.(*binaryReader).uvarint
+//@   requires b != nil
+//@   ensures result >= 0 && len(b.b) <= old(len(b.b))
+//@   assigns b.b, b.err
+
+//@ func query.(*binaryReader).count
+//@   requires b != nil
+//@   ensures result >= 0 && result <= len(b.b) && len(b.b) <= old(len(b.b))
+//@   assigns b.b, b.err
+
+//@ func query.(*binaryReader).str
+//@   requires b != nil
+//@   ensures len(b.b) <= old(len(b.b))
+//@   assigns b.b, b.err
+
+//@ func query.(*binaryReader).byt
+//@   requires b != nil
+//@   ensures len(b.b) <= old(len(b.b))
+//@   assigns b.b, b.err
+
+//@ func query.(*binaryReader).bitmap
+//@   requires b != nil
+//@   ensures len(b.b) <= old(len(b.b))
+//@   assigns b.b, b.err
+
+//@ func query.stringSetDecode
+//@   loop 1:
+//@     invariant l <= len(b) && len(r.b) <= len(b) && set != nil
+//@   ensures true
+
+//@ func query.branchesReposDecode
+//@   loop 1:
+//@     invariant l <= len(b) && len(r.b) <= len(b) && len(brs) == l && 0 <= $n && $n < l
+//@   ensures true
